@@ -406,7 +406,10 @@ class Engine:
         out = []
         for s, vs in self.eval_seq([e.left, e.right], st):
             a, b = vs
-            if isinstance(a, C) and isinstance(b, C) and isinstance(e.op, (ast.Add, ast.Sub, ast.Mult)):
+            h = self.contract.binop(self, s, e.op, a, b) if hasattr(self.contract, 'binop') else None
+            if h is not None:
+                out.append((s, h))
+            elif isinstance(a, C) and isinstance(b, C) and isinstance(e.op, (ast.Add, ast.Sub, ast.Mult)):
                 out.append((s, C({ast.Add: lambda x, y: x + y, ast.Sub: lambda x, y: x - y, ast.Mult: lambda x, y: x * y}[type(e.op)](a.v, b.v))))
             elif isinstance(e.op, (ast.Add, ast.Sub)):
                 x, y = self.as_int(a), self.as_int(b)
